@@ -31,6 +31,8 @@ type FaultSpec struct {
 	From    int    `json:"from"`
 	Count   int    `json:"count"`
 	Kind    string `json:"kind"` // transport | gqlerrors | gqlerrors+data | node-null | empty | wrong-shape
+	// MatchID, when set, selects calls by their join id instead of by arrival order ("root" = calls without one)
+	MatchID string `json:"match_id,omitempty"`
 }
 
 // FedCase is an executed federated case with both oracles.
